@@ -142,9 +142,46 @@ theorem nodup_append_pod {l : List PodObj} {p : PodObj} (hnd : (podNames l).Nodu
 /-- `GetTaskRef().Name` of a task is its `GetName()` (true for every `PodTask`) -/
 def TaskOK (t : Task) : Prop := t.ref.name = t.name
 
-theorem podTask_ok {p : PodObj} {t : Task} (h : podTask p = some t) : TaskOK t ∧ t.name = p.pod.name := by
+/-- the finish time `GetTaskRef` records is set exactly when `GetFinishTimestamp` is: the
+observation time only replaces a fallback value -/
+theorem _root_.Furiko.Pod.recordedFinish_isSome (now : Time) (p : Pod) (fin : Option Time) :
+    (p.recordedFinish now fin).isSome = fin.isSome := by
+  unfold Pod.recordedFinish
+  split
+  · rename_i h
+    simp only [Bool.and_eq_true] at h
+    rw [h.1]; rfl
+  · rfl
+
+theorem _root_.Furiko.Pod.recordedFinish_none (now : Time) (p : Pod) : p.recordedFinish now none = none := by
+  simp [Pod.recordedFinish]
+
+/-- a Pod that tells when it finished is recorded with that time: the clock is irrelevant -/
+theorem _root_.Furiko.Pod.recordedFinish_of_reported {now : Time} {p : Pod} (fin : Option Time)
+    (h : p.hasFinishTimestamp = true) : p.recordedFinish now fin = fin := by
+  simp [Pod.recordedFinish, h]
+
+/-- the recorded finish time is what the Pod reports, or the observation time -/
+theorem _root_.Furiko.Pod.recordedFinish_cases (now : Time) (p : Pod) (fin : Option Time) :
+    p.recordedFinish now fin = fin ∨
+      (p.recordedFinish now fin = some now ∧ fin.isSome = true ∧ p.hasFinishTimestamp = false) := by
+  unfold Pod.recordedFinish
+  split
+  · rename_i h
+    simp only [Bool.and_eq_true, Bool.not_eq_true'] at h
+    exact Or.inr ⟨rfl, h.1, h.2⟩
+  · exact Or.inl rfl
+
+theorem _root_.Furiko.Pod.recordedFinish_some {now : Time} {p : Pod} {fin : Option Time} {f : Time}
+    (h : p.recordedFinish now fin = some f) : fin = some f ∨ f = now := by
+  unfold Pod.recordedFinish at h
+  split at h
+  · exact Or.inr (Option.some.inj h).symm
+  · exact Or.inl h
+
+theorem podTask_ok {now : Time} {p : PodObj} {t : Task} (h : podTask now p = some t) : TaskOK t ∧ t.name = p.pod.name := by
   unfold podTask Pod.task at h
-  cases hr : p.pod.taskRef with
+  cases hr : p.pod.taskRef now with
   | none => simp [hr] at h
   | some r =>
     simp only [hr, Option.some.injEq] at h
